@@ -276,7 +276,12 @@ fn run_prim_ops<S: Source>(prim: &mut Primitive<S>, ops: &[PrimOp], x: &mut Ctx)
     for op in ops {
         match op {
             PrimOp::Req(n) => {
-                let g = prim.request(*n)?.min(*n);
+                let res = prim.request(*n)?;
+                // a window over a value's content never grants more than is left of the content
+                if res > prim.remaining() {
+                    x.emit(format!("OVER{}", res));
+                }
+                let g = res.min(*n);
                 x.grant = g;
                 x.emit(format!("r{}", g));
             }
